@@ -3,6 +3,7 @@
 package main
 
 import (
+	"encoding/json"
 	"flag"
 	"fmt"
 	"os"
@@ -21,7 +22,7 @@ func main() {
 	verif := flag.String("verif", "/verif", "verification directory (evidence, known findings)")
 	prop := flag.String("prop", "all", "property id (C01..C20), comma list, or all")
 	tier := flag.String("tier", "quick", "quick or thorough")
-	overlay := flag.String("overlay", "", "self-test only: file|old|new replacement applied in memory")
+	overlay := flag.String("overlay", "", "self-test only: JSON [file,old,new] replacement applied in memory")
 	overlayDir := flag.String("overlay-dir", "", "self-test only: directory mirroring /repo whose .go files replace the tree's in memory")
 	noEvidence := flag.Bool("no-evidence", false, "do not write evidence/replay files (used for mutant self-tests)")
 	dump := flag.String("dump", "", "debug: dump SSA of functions whose name contains this string")
@@ -35,9 +36,10 @@ func main() {
 	var ov map[string][]byte
 
 	if *overlay != "" {
-		parts := strings.SplitN(*overlay, "|", 3)
-		if len(parts) != 3 {
-			fatal("bad -overlay")
+		// JSON array ["file","old","new"]
+		var parts []string
+		if err := json.Unmarshal([]byte(*overlay), &parts); err != nil || len(parts) != 3 {
+			fatal("bad -overlay (want JSON [file,old,new])")
 		}
 
 		path := parts[0]
